@@ -391,12 +391,27 @@ def buffer(ctx, k):
             ctx.require_concrete(False, "real trio clock: Buffer runs without raising (%s)" % type(e).__name__)
 
 
+class _Kid(RecPool):
+    """child with a deterministic hash: the iteration order of FactoryPool's sets (hence the order in which the
+    symbolic comparisons are met, hence the path count) must not depend on addresses"""
+
+    def __init__(self, idx, **kw):
+        super().__init__(**kw)
+        self.idx = idx
+
+    def __hash__(self):
+        return self.idx
+
+    def __eq__(self, other):
+        return self is other
+
+
 def factory(ctx, k, n0=1):
     made = []
 
     def make():
-        c = RecPool(demand=ctx.num("fd%d" % len(made)), supply=0, utilisation=1.0, allocation=1.0,
-                    name="spawn%d" % len(made))
+        c = _Kid(10 + len(made), demand=ctx.num("fd%d" % len(made)), supply=0, utilisation=1.0, allocation=1.0,
+                 name="spawn%d" % len(made))
         ctx.assume(c.demand > 0)
         if len(made) >= 2:
             ctx.cut("more than two spawns in one scenario")
@@ -405,8 +420,8 @@ def factory(ctx, k, n0=1):
 
     kids = []
     for i in range(n0):
-        c = RecPool(demand=ctx.num("d%d" % i), supply=ctx.num("s%d" % i), utilisation=ctx.num("u%d" % i),
-                    name="kid%d" % i)
+        c = _Kid(i, demand=ctx.num("d%d" % i), supply=ctx.num("s%d" % i), utilisation=ctx.num("u%d" % i),
+                 name="kid%d" % i)
         ctx.assume(And(c.demand >= 0, c.supply >= 0, c.utilisation >= 0))
         kids.append(c)
     ival = ctx.num("interval")
